@@ -1,7 +1,7 @@
 (* Properties/C17.v — Ticks are few enough, nice, ascending, inside the domain; Nice only expands.
    ONLY statements; each is closed by [exact] of a lemma from Proofs/Ticks*.v. *)
 From Coq Require Import Sorted.
-From MM Require Import Base.Num Model.Ticks Proofs.Ticks Proofs.TicksLinear Proofs.TicksLog Check.C17 Proofs.TicksCheck.
+From MM Require Import Base.Num Model.Ticks Proofs.Ticks Proofs.TicksLinear Proofs.TicksNice Proofs.TicksLog Proofs.TicksLogExp Proofs.TicksLogNice Check.C17 Proofs.TicksCheck.
 Local Open Scope Z_scope.
 
 (* ================= FindLevel (ticks.go:56-101) ================= *)
@@ -126,6 +126,51 @@ Theorem C17_linear_nice_adds_less_than_one_spacing : forall base eb mn mx o gues
 Proof. exact lin_nice_adds_less_than_one_spacing. Qed.
 Print Assumptions C17_linear_nice_adds_less_than_one_spacing.
 
+(* The rounded-out tick count Nice searches with is non-increasing in the level, so "the level
+   Nice picks" is the LOWEST level of the window whose rounded-out count is at most Max,
+   whatever guess the search starts from *)
+Theorem C17_linear_nice_count_nonincreasing : forall base eb, lin_ebase base = Some eb ->
+  forall mn mx lo hi, mn < mx -> nonincreasing (lin_count base eb mn mx true) lo hi.
+Proof. exact lin_count_out_nonincreasing. Qed.
+Print Assumptions C17_linear_nice_count_nonincreasing.
+
+(* NICE IS IDEMPOTENT: every domain (proper, reversed, degenerate), every base, every options
+   with Max * Base <= 10^9 (Base = 10 when the field is 0), every level window, whatever the
+   two starting guesses.  (Max >= 3 is not needed for this clause: when no level fits, the
+   domain is left as it is both times.) *)
+Theorem C17_linear_nice_idempotent : forall base eb, lin_ebase base = Some eb ->
+  forall mn mx o g g2 a b, (o_max o * eb <= 10 ^ 9)%Z ->
+  lin_nice base mn mx o g = NR_dom a b -> lin_nice base a b o g2 = NR_dom a b.
+Proof. exact lin_nice_idempotent. Qed.
+Print Assumptions C17_linear_nice_idempotent.
+
+(* AFTER NICE THE FIRST AND LAST MAJOR TICKS ARE THE NEW ENDS: whenever Nice found a level (it
+   always does for Max >= 3 unless the level limits forbid it), Ticks with the same options on
+   the niced domain [a, b] returns major ticks whose first is a and whose last is b - exactly
+   for an end that Nice moved; an end that Nice left alone because it was within the slack
+   1e-10 (Max-Min) below/above a tick (repair D10) differs from the tick by at most that slack *)
+Theorem C17_linear_nice_ends_are_first_last_major : forall base eb mn mx o g g3 l a b major minor,
+  lin_ebase base = Some eb -> mn < mx -> (o_max o * eb <= 10 ^ 9)%Z ->
+  find_level o (lin_count base eb mn mx true) g = FL_ok l ->
+  lin_nice base mn mx o g = NR_dom a b ->
+  lin_ticks base a b o g3 = TR_ticks major minor ->
+  exists t1 rest, major = t1 :: rest /\
+    0 <= t1 - a <= (mx - mn) * slack_factor /\ 0 <= b - last major t1 <= (mx - mn) * slack_factor /\
+    (a < mn -> t1 == a) /\ (mx < b -> last major t1 == b).
+Proof. exact lin_nice_ends_are_first_last_major. Qed.
+Print Assumptions C17_linear_nice_ends_are_first_last_major.
+
+(* non-vacuity of the three: [0.3, 2.7], Max 4: Nice -> [0, 3] at level 0, again [0, 3];
+   Ticks on [0, 3] = 0, 1, 2, 3 *)
+Example C17_linear_nice_example :
+  find_level (mkOpts 4 0 0) (lin_count 0 10 (3 # 10) (27 # 10) true) 5 = FL_ok 0%Z /\
+  match lin_nice 0 (3 # 10) (27 # 10) (mkOpts 4 0 0) 5 with
+  | NR_dom a b => lin_nice 0 a b (mkOpts 4 0 0) (-3) = NR_dom a b /\
+                  match lin_ticks 0 a b (mkOpts 4 0 0) 2 with
+                  | TR_ticks ma _ => map Qred ma = [0; 1; 2; 3] | _ => False end
+  | _ => False end.
+Proof. vm_compute. repeat split; reflexivity. Qed.
+
 (* non-vacuity: [0.3, 2.7] (exact rationals), Max = 4 -> major 1, 2 at level 0, minor every 0.5;
    Nice -> [0, 3]; a domain around 0 with Max = 2 has no fitting level: Nice leaves it (D10) *)
 Example C17_linear_example :
@@ -183,6 +228,27 @@ Theorem C17_log_ticks : forall b mn mx o major minor lo hi,
 Proof. exact log_ticks_correct. Qed.
 Print Assumptions C17_log_ticks.
 
+(* The integer logarithms behind the admitted exponents are the real-valued ones, stated with
+   powers only: for every base >= 2 and every positive rational q,
+   floor_log b q is THE exponent n with b^n <= q < b^(n+1)  (= floor(log_b q)), and
+   ceil_log b q is THE exponent n with b^(n-1) < q <= b^n   (= ceil(log_b q)) *)
+Theorem C17_floor_log_is_floor_of_log : forall b q, 2 <= b -> (0 < q)%Q ->
+  ((qpow b (floor_log b q) <= q)%Q /\ (q < qpow b (floor_log b q + 1))%Q) /\
+  forall n, n <= floor_log b q <-> (qpow b n <= q)%Q.
+Proof. intros b q Hb Hq. split; [exact (floor_log_spec b q Hb Hq) | exact (floor_log_greatest b q Hb Hq)]. Qed.
+Print Assumptions C17_floor_log_is_floor_of_log.
+
+Theorem C17_ceil_log_is_ceil_of_log : forall b q, 2 <= b -> (0 < q)%Q ->
+  ((qpow b (ceil_log b q - 1) < q)%Q /\ (q <= qpow b (ceil_log b q))%Q) /\
+  forall n, ceil_log b q <= n <-> (q <= qpow b n)%Q.
+Proof. intros b q Hb Hq. split; [exact (ceil_log_spec b q Hb Hq) | exact (ceil_log_least b q Hb Hq)]. Qed.
+Print Assumptions C17_ceil_log_is_ceil_of_log.
+
+Example C17_floor_ceil_log_example :
+  floor_log 10 (20000 # 1) = 4 /\ ceil_log 10 (20000 # 1) = 5 /\ floor_log 10 (3 # 1000) = -3 /\ ceil_log 10 (3 # 1000) = -2 /\
+  floor_log 2 (1 # 8) = -3 /\ ceil_log 2 (1 # 8) = -3 /\ floor_log 16 1 = 0 /\ ceil_log 16 1 = 0.
+Proof. vm_compute. repeat split; reflexivity. Qed.
+
 (* Nice never shrinks the domain (any sign, any options; when no level fits, or the nice
    bound would not be a positive finite float64, the end stays), and an end that moves lands
    on a power of the base *)
@@ -197,6 +263,54 @@ Theorem C17_log_nice_ends_are_powers : forall b mn mx o a c, (0 < mn)%Q -> (mn <
   (c = mx \/ exists n, c = qpow b n /\ f64_pos_ok c = true).
 Proof. exact log_nice_ends_are_powers. Qed.
 Print Assumptions C17_log_nice_ends_are_powers.
+
+(* The rounded-out count of a Log scale is non-increasing in the level (so Nice picks the lowest
+   fitting level) whenever the rounded-out exponent interval is proper *)
+Theorem C17_log_nice_count_nonincreasing : forall e, le_out_lo e < le_out_hi e ->
+  forall lo hi, log_count e true 0 <= MAXINT -> nonincreasing (log_count e true) lo hi.
+Proof. exact log_count_out_nonincreasing. Qed.
+Print Assumptions C17_log_nice_count_nonincreasing.
+
+(* LOG NICE IS IDEMPOTENT ON LANDED ENDS, and then the first and last major ticks are the ends:
+   for a positive domain whose Nice found level l and rounded out to the exponents f 2^l, la 2^l,
+   the domain [b^(f 2^l), b^(la 2^l)] - what Nice returns when both ends move onto their powers
+   (or already were those powers) - is left unchanged by a second Nice, and Ticks on it starts
+   at the first end and stops at the second.  (An end the repair of D10 leaves in place because
+   it lies within the slack of a power is NOT covered: its slack decision is re-taken with the
+   other end's new position.) *)
+Theorem C17_log_nice_idempotent_on_landed_ends : forall b mn mx o l, 2 <= b -> (0 < mn)%Q -> (mn < mx)%Q ->
+  let e := log_exps b mn mx in
+  le_out_lo e < le_out_hi e -> log_count e true 0 <= MAXINT -> o_max o < MAXINT ->
+  find_level o (log_count e true) 0 = FL_ok l ->
+  let f := fst (log_first_last e true l) in let la := snd (log_first_last e true l) in
+  (la * 2 ^ l - f * 2 ^ l + 1 <= MAXINT) ->
+  let a := qpow b (f * 2 ^ l) in let c := qpow b (la * 2 ^ l) in
+  log_nice b a c o = (a, c).
+Proof. exact log_nice_fixed_on_landed_ends. Qed.
+Print Assumptions C17_log_nice_idempotent_on_landed_ends.
+
+Theorem C17_log_nice_ends_are_first_last_major : forall b mn mx o l major minor, 2 <= b -> (0 < mn)%Q -> (mn < mx)%Q ->
+  let e := log_exps b mn mx in
+  le_out_lo e < le_out_hi e -> log_count e true 0 <= MAXINT -> o_max o < MAXINT ->
+  find_level o (log_count e true) 0 = FL_ok l ->
+  let f := fst (log_first_last e true l) in let la := snd (log_first_last e true l) in
+  (la * 2 ^ l - f * 2 ^ l + 1 <= MAXINT) ->
+  let a := qpow b (f * 2 ^ l) in let c := qpow b (la * 2 ^ l) in
+  log_ticks b a c o = TR_ticks major minor ->
+  exists rest, major = a :: rest /\ last major a = c.
+Proof. exact log_ticks_on_landed_ends. Qed.
+Print Assumptions C17_log_nice_ends_are_first_last_major.
+
+(* non-vacuity: [3, 20000] base 10, Max 3: level 2, exponents 0 and 8: Nice -> [1, 10^8], again
+   [1, 10^8]; Ticks = 1, 10^4, 10^8 *)
+Example C17_log_nice_example :
+  let e := log_exps 10 3 20000 in
+  le_out_lo e = 0 /\ le_out_hi e = 5 /\ find_level (mkOpts 3 0 0) (log_count e true) 0 = FL_ok 2 /\
+  log_first_last e true 2 = (0, 2) /\
+  log_nice 10 3 20000 (mkOpts 3 0 0) = (1%Q, 100000000%Q) /\
+  log_nice 10 1 100000000 (mkOpts 3 0 0) = (1%Q, 100000000%Q) /\
+  log_ticks 10 1 100000000 (mkOpts 3 0 0) = TR_ticks [1%Q; 10000%Q; 100000000%Q] [1%Q; 100%Q; 10000%Q; 1000000%Q; 100000000%Q].
+Proof. vm_compute. repeat split; reflexivity. Qed.
 
 (* non-vacuity: [3, 20000] base 10: exponents 1..4; Max = 2 -> level 1 (100, 10000), minor = level 0;
    Max = 5 -> level 0 with the 2..9 multiples as minor ticks; Nice(Max 3) -> [1, 10^8] (level 2, 3 ticks);
@@ -227,3 +341,32 @@ Proof. intros base b mn mx o g. split; [|split; [|split]].
   - exact (log_ticks_capped_eq b mn mx o).
   - exact (log_nice_capped_eq b mn mx o). Qed.
 Print Assumptions C17_check_runs_the_model.
+
+(* ================= the slack decision of Log scales, against REAL logarithms ================= *)
+(* (real-number statements: Print Assumptions shows the axioms of the standard library's reals
+   and nothing else)  The three-valued decision [near] that log_exps uses in place of the float
+   comparison |log big - log small| <= 1e-10 (log max - log min) encloses the real-valued rule:
+   N_inside implies the two values are within the slack (with mu to spare), N_outside implies
+   they are farther apart (by more than mu); only N_border - which the check counts as a
+   borderline input - leaves the real-valued rule undecided.  Together with
+   C17_floor_log_is_floor_of_log / C17_ceil_log_is_ceil_of_log this makes the admitted exponent
+   interval of log_exps the real-valued one whenever no decision is N_border. *)
+From Coq Require Import Reals Qreals.
+From MM Require Import Proofs.TicksNearR.
+
+Theorem C17_near_inside_sound : forall small big t mu : Q, (0 < small)%Q -> (small <= big)%Q -> (1 <= t)%Q ->
+  near small big t mu = N_inside ->
+  (ln (Q2R big / Q2R small) <= Q2R slack_factor * ln (Q2R t) - Q2R mu)%R.
+Proof. exact near_inside_sound. Qed.
+Print Assumptions C17_near_inside_sound.
+
+Theorem C17_near_outside_sound : forall small big t mu : Q, (0 < small)%Q -> (small <= big)%Q -> (1 <= t)%Q ->
+  near small big t mu = N_outside ->
+  (Q2R slack_factor * ln (Q2R t) + Q2R mu <= ln (Q2R big / Q2R small))%R.
+Proof. exact near_outside_sound. Qed.
+Print Assumptions C17_near_outside_sound.
+
+Example C17_near_example :
+  near 1000 (1000 + (1 # 100000000)) 20 (1 # 1000000000000) = N_inside /\
+  near 1000 1001 20 (1 # 1000000000000) = N_outside.
+Proof. vm_compute. split; reflexivity. Qed.
